@@ -13,10 +13,10 @@ const connStruct = "layer4.Connection"
 
 func init() {
 	register(&property{
-		ID: "C01",
+		ID:          "C01",
 		Explanation: "Static decision of the cursor discipline that makes match-and-rewind lossless: (R1) every ConnMatcher.Match invocation is bracketed by freeze/unfreeze on all paths (typestate over the SSA CFG); (R2) freeze saves and unfreeze restores exactly the read cursor; (R3) Connection.Read, evaluated over all orderings of (matching, len(buf), offset) by a finite-predicate path evaluator, drains the buffer before the socket, advances the cursor by what was copied, resets only outside matching and never touches the socket while matching; (R4) prefetch appends exactly the bytes the underlying read returned; (R5) no component copies a Connection by value or constructs one outside the two constructors, Wrap never hands unread bytes to the new connection, and every Wrap argument reads through the receiver; (R6) the router adopts the connection handed on by a non-terminal route; (R7) every handler passes on the connection it got, or Wrap of a conn built on it.",
-		NotDecided: "Equality of the delivered stream with the sent stream for all streams and segmentations (conjunction of these rules plus the semantics of tls.Conn, bufio, io.TeeReader, which are trusted); buffer growth arithmetic beyond R4; handlers outside this module.",
-		Run:        runC01,
+		NotDecided:  "Equality of the delivered stream with the sent stream for all streams and segmentations (conjunction of these rules plus the semantics of tls.Conn, bufio, io.TeeReader, which are trusted); buffer growth arithmetic beyond R4; handlers outside this module.",
+		Run:         runC01,
 	})
 }
 
@@ -495,7 +495,7 @@ func c01R5(c *Ctx, r *Report, rule string) {
 					Name:   fmt.Sprintf("Wrap:%s(len=%d,off=%d)", w.name, w.l, w.o),
 					Heap:   map[string]SV{"recv.matching": symBool(matching), "recv.buf": symSliceCap("recv.buf", w.l, 2048), "recv.offset": symInt(w.o)},
 					Params: map[string]SV{"recv": symRef("recv", false), "p0": symRef("conn", false)},
-					Call: func(callee string, args []SV, ev *symEval) (SV, bool) {
+					Call: func(callee string, args []SV, ev *symEval, st *symState) (SV, bool) {
 						if strings.HasPrefix(callee, "(*sync/atomic.") {
 							return symOpaque("atomic"), true
 						}
